@@ -1,8 +1,6 @@
 package props
 
 import (
-	"fmt"
-
 	"verif/sim"
 )
 
@@ -15,14 +13,8 @@ func Registry() map[string]*sim.Scenario {
 	for _, s := range extra {
 		m[s.ID] = s
 	}
-	for _, s := range []*sim.Scenario{C01, C02, C03, C04, C06, C07, C08, C09, C10, C12, C14, C15, C16} {
+	for _, s := range []*sim.Scenario{C01, C02, C03, C04, C06, C07, C08, C09, C10, C12, C13, C14, C15, C16} {
 		m[s.ID] = s
 	}
 	return m
-}
-
-// SelfTest is filled in by selftest.go.
-func SelfTest(o sim.Options) int {
-	fmt.Println("selftest: not built yet")
-	return 2
 }
